@@ -239,7 +239,7 @@ CHECKS = {
         "uncovered": [
             "row order independence (needs uniqueness of the solution, not derived)",
             "floating point conditioning (`well-conditioned`) is outside a real-number contract",
-            "NaN entries make argabsmax panic (partial_cmp().unwrap()): outside the model",
+            "NaN entries are outside the real-number model (the abort they caused in argabsmax was a genuine defect, repaired: fix 234b13e, replayed under C20)",
         ],
     },
     "C15": {
